@@ -277,6 +277,25 @@ def _seeded(job: Tuple[str, str]) -> Dict[str, Any]:
     return {"property": pid, "variant": name, "kind": "seeded", "result": "ok" if code == 1 else "FAILED", "exit": code, "fired": fired, "wall_s": round(time.time() - t0, 2)}
 
 
+OBSOLETE_DIR = os.path.join(os.path.dirname(os.path.dirname(os.path.abspath(__file__))), "seeded_obsolete")
+
+
+def _preserving_patch(job: Tuple[str, str]) -> Dict[str, Any]:
+    """A seeded change that a later fix turned into a behaviour-preserving edit: the check must stay silent on it."""
+    root, sid = job
+    pid = sid.split("-")[0]
+    name = f"former seeded change {sid}, harmless on the fixed tree (its demo passes)"
+    try:
+        files = Project.read_files(root)
+        why = apply_unified_diff(files, open(os.path.join(OBSOLETE_DIR, sid, "patch_rebased_on_fixed_tree.diff")).read())
+        if why is not None:
+            return {"property": pid, "variant": name, "kind": "preserving", "result": "skipped", "why": why}
+        code, fired = _run(pid, Project(root, files, "overlay"))
+    except Exception as e:  # pragma: no cover
+        return {"property": pid, "variant": name, "kind": "preserving", "result": "error", "why": f"{type(e).__name__}: {e}"}
+    return {"property": pid, "variant": name, "kind": "preserving", "result": "ok" if code == 0 else "FAILED", "exit": code, "fired": fired}
+
+
 def run_all(root: str, only: Optional[str] = None, jobs: int = 16) -> List[Dict[str, Any]]:
     idxs = [i for i, v in enumerate(V) if only is None or v[0] == only]
     hist = [p for p in HISTORIC if only is None or p == only]
@@ -285,6 +304,8 @@ def run_all(root: str, only: Optional[str] = None, jobs: int = 16) -> List[Dict[
         out.extend(ex.map(_one, [(root, i, "") for i in idxs]))
         out.extend(ex.map(_historic, [(root, p) for p in hist]))
         out.extend(ex.map(_seeded, [(root, sid) for sid in seeded_ids(only)]))
+        obs = [d for d in (sorted(os.listdir(OBSOLETE_DIR)) if os.path.isdir(OBSOLETE_DIR) else []) if os.path.isfile(os.path.join(OBSOLETE_DIR, d, "patch_rebased_on_fixed_tree.diff")) and (only is None or d.split("-")[0] == only)]
+        out.extend(ex.map(_preserving_patch, [(root, sid) for sid in obs]))
     return out
 
 
